@@ -12,6 +12,8 @@
  *                             followed by one observation line (not compared with the model, judged only)
  *                               obs ticks=<instructions executed> maxcsp=<max csp index> maxsp=<max sp index>
  *                                   csp=<csp index after> sp=<sp index after> cost=<budget> depth=<MaxCallDepth> stack=<n>
+ *                                   maxtouch=<highest slot at or above <n> that was written, -1 = none>
+ *                                   cost0=<eval_cost the evaluation started with>
  *   lpc <path> <hex>          write generated LPC source to <mudlib>/<path>
  *   shape <term>              ignored (the abstract shape of the generated program, read by the model)
  *   reconf <Key> <value>      re-read the config file through init_config() with that key replaced
@@ -31,11 +33,25 @@
 extern long long verif_insn_count;
 extern long verif_max_csp;
 extern long verif_max_sp;
+/* `verif hook: per-opcode execution histogram` (weak: a tree without that hook still links, no `#ops` line then) */
+extern unsigned long verif_op_hist[256] __attribute__ ((weak));
 #else
 static long long verif_insn_count;
 static long verif_max_csp, verif_max_sp;
 #endif
 
+#ifndef NEOLITH_VERIF
+static unsigned long *verif_op_hist = 0;
+#endif
+/* the backward-branch opcodes found in eval_instruction by props/c04.py (gen_loop), passed as
+ * -DC04_BACKOPS={"F_BBRANCH",F_BBRANCH},... : a name the source no longer defines breaks the harness build (the tie) */
+#include "efuns_opcode.h"
+#ifndef C04_BACKOPS
+#define C04_BACKOPS
+#endif
+static const struct { const char *name; int op; } c04_backops[] = { C04_BACKOPS {0, 0} };
+
+#define C04_SENTINEL 0x7e57
 static int c04_stack = 0;
 static const char *c04_conf = 0, *c04_scratch = "/tmp";
 static int c04_hc = 0;	/* the master's error handler completes a catch: error_state at the driver level is not compared */
@@ -46,6 +62,7 @@ static int c04_ev (int n, char **tok, int quiet)
   object_t *ob = vh_obj (tok[1]);
   volatile int rc = 0;
   volatile int es = 0;
+  volatile long long cost0 = 0;	/* the budget this evaluation started with */
   char res[4096];
   svalue_t *ret;
   char *shared;
@@ -58,6 +75,8 @@ static int c04_ev (int n, char **tok, int quiet)
   shared = make_shared_string (tok[2]);
   res[0] = 0;
   verif_insn_count = 0;
+  if (verif_op_hist)
+    memset (verif_op_hist, 0, 256 * sizeof (unsigned long));
   verif_max_csp = csp - control_stack;
   verif_max_sp = sp - start_of_stack;
   if (!save_context (&econ))
@@ -65,6 +84,11 @@ static int c04_ev (int n, char **tok, int quiet)
       vh_out ("r err es=1");
       return 1;
     }
+  /* the slots above the lowered StackSize are marked: a push that is not seen at any instruction fetch (arguments
+   * pushed inside an efun, popped again before the callee's first instruction) still leaves its trace there */
+  if (c04_stack)
+    for (svalue_t * q = start_of_stack + c04_stack; q < start_of_stack + CONFIG_INT (__EVALUATOR_STACK_SIZE__); q++)
+      q->type = C04_SENTINEL;
   if (!setjmp (econ.context))
     {
       for (int i = 3; i < n; i++)
@@ -77,6 +101,7 @@ static int c04_ev (int n, char **tok, int quiet)
             copy_and_push_string (tok[i]);
         }
       eval_cost = CONFIG_INT (__MAX_EVAL_COST__);	/* as backend.c does before each task */
+      cost0 = eval_cost;
       ret = apply (shared, ob, n - 3, ORIGIN_DRIVER);
       if (!ret)
         rc = 2;
@@ -100,9 +125,30 @@ static int c04_ev (int n, char **tok, int quiet)
     vh_out ("r nofn");
   else
     vh_out ("r ret %s", res);
-  vh_out ("obs ticks=%lld maxcsp=%ld maxsp=%ld csp=%ld sp=%ld cost=%d depth=%d stack=%d", verif_insn_count,
-          verif_max_csp, verif_max_sp, (long) (csp - control_stack), (long) (sp - start_of_stack),
-          CONFIG_INT (__MAX_EVAL_COST__), CONFIG_INT (__MAX_CALL_DEPTH__), c04_stack);
+  if (verif_op_hist)
+    {
+      /* `#` lines are not compared and not judged: read by the plugin (which loop opcodes the evaluation executed) */
+      char ops[1024];
+      int len = 0;
+      ops[0] = 0;
+      for (int i = 0; c04_backops[i].name && len < 900; i++)
+        if (verif_op_hist[c04_backops[i].op & 255])
+          len += snprintf (ops + len, sizeof ops - len, " %s=%lu", c04_backops[i].name, verif_op_hist[c04_backops[i].op & 255]);
+      vh_out ("#ops%s", ops);
+    }
+  {
+    long touched = -1;
+    if (c04_stack)
+      for (svalue_t * q = start_of_stack + CONFIG_INT (__EVALUATOR_STACK_SIZE__) - 1; q >= start_of_stack + c04_stack; q--)
+        if (q->type != C04_SENTINEL)
+          {
+            touched = q - start_of_stack;
+            break;
+          }
+    vh_out ("obs ticks=%lld maxcsp=%ld maxsp=%ld csp=%ld sp=%ld cost=%d depth=%d stack=%d maxtouch=%ld cost0=%lld", verif_insn_count,
+            verif_max_csp, verif_max_sp, (long) (csp - control_stack), (long) (sp - start_of_stack),
+            CONFIG_INT (__MAX_EVAL_COST__), CONFIG_INT (__MAX_CALL_DEPTH__), c04_stack, touched, (long long) cost0);
+  }
   return 1;
 }
 
